@@ -34,6 +34,7 @@ def wrapOf : String → Wrap
   | "wrapped" => .wrapped
   | "nested" => .nested
   | "nestedwrapped" => .nestedWrapped
+  | "group" => .storedProposal
   | _ => .top
 
 def routeOf : String → ChanRoute
@@ -47,6 +48,8 @@ def mkindOf : String → MKind
   | "viaUpdateNested" => .viaUpdateNested
   | "viaWrapped" => .viaWrapped
   | "viaWrappedNested" => .viaWrappedNested
+  | "submitGroup" => .submitStored
+  | "viaUpdateGroup" => .viaUpdateStored
   | _ => .submit
 
 def chainOf (d : DState) (s : String) : Nat :=
@@ -142,8 +145,8 @@ def splitSubs (f : List String) : List (List String) :=
 def txSub (d : DState) (f : List String) : Option Op :=
   match f with
   | "update" :: _ => parseOp d f
-  | "lc_update" :: _ => parseOp d f
-  | "lc_misb" :: _ => parseOp d f
+  | "lc_update" :: _ => if kv f "w" = "group" then none else parseOp d f
+  | "lc_misb" :: _ => if (kv f "k").endsWith "Group" then none else parseOp d f
   | "lc_setcanon" :: _ => parseOp d f
   | "lc_chanack" :: _ => if kv f "ibc" = "0" && (kv f "w" = "" || kv f "w" = "top") then parseOp d f else none
   | _ => none
